@@ -83,8 +83,8 @@ CasesExhaustive(z) ==
   \cup CompactCases("k4d1", AllArrs(4, -2..2), 1..2)
   \cup PeriodicFullCases("c4d1", AllArrs(4, -1..1), {1})
   \cup PeriodicFullCases("k4d1", AllArrs(4, -1..1), {1})
-  \cup CompactCases("c2d2", AllArrs(8, -1..1), {1})
-  \cup CompactCases("a2c2d1", AllArrs(8, -1..1), {1})
+  \cup {Mk("c2d2", r, 1, x, "raw") : r \in {"compact", "transpose"}, x \in AllArrs(8, -1..1)}
+  \cup CompactCases("a2c2d1", AllArrs(8, 0..1), {1})
   \cup FullCases("n1d2", AllArrs(4, -2..2), 1..2)
   \cup CompactCases("n1d2", AllArrs(4, -2..2), 1..2)
 
@@ -94,10 +94,10 @@ LinSystems == DOMAIN MCSystems
 (* fixed point (variant "pinned", even multiplicity) multiplies the denominator by 2 ns^2  *)
 (* per round, and Idempotent runs the routine twice: keep within TLC's 32-bit integers     *)
 LevelsOf(k) == IF MCSystems[k].ns <= 2 THEN 1..3 ELSE IF MCSystems[k].ns <= 4 THEN 1..2 ELSE {1}
-(* big systems (more than 300 array positions): every 5th basis vector; their complete      *)
+(* big systems (more than 150 array positions): every 5th basis vector; their complete      *)
 (* bases are covered by the 2-D versions of the same systems (the routines treat the        *)
 (* component pairs {(k,l), (l,k)} independently of one another)                            *)
-BasisOf(M) == IF M <= 300 THEN Basis(M) ELSE {Unit(M, p, 1) : p \in {q \in 1..M : q % 5 = 1}}
+BasisOf(M) == IF M <= 150 THEN Basis(M) ELSE {Unit(M, p, 1) : p \in {q \in 1..M : q % 5 = 1}}
 CasesLinearOf(k) ==
   LET bf == BasisOf(MSize(k, FALSE)) \cup Dense(MSize(k, FALSE))
       bc == BasisOf(MSize(k, TRUE)) \cup Dense(MSize(k, TRUE))
